@@ -32,6 +32,8 @@ Lemma frame_set_highest : forall s h, frame s (set_highest s h).
 Proof. intros; unfold frame; simpl; repeat split; auto; lia. Qed.
 Lemma frame_set_buf : forall s b pu, frame s (set_buf s b pu).
 Proof. intros; unfold frame; simpl; repeat split; auto; lia. Qed.
+Lemma frame_set_poof : forall s, frame s (set_poof s).
+Proof. intros; unfold frame; simpl; repeat split; auto; lia. Qed.
 Lemma frame_apply_out : forall s o, frame s (apply_out s o).
 Proof.
   intros s o. destruct o; simpl; try apply frame_refl.
@@ -151,7 +153,9 @@ Section Proc.
          /\ Forall (fun o => inner_out o \/ (exists g, o = PHandle g) \/ o = PHighest) new.
   Proof.
     induction fuel as [|f IH]; intros s bs i Hi; simpl.
-    - repeat split; auto using frame_refl; try lia. exists []. rewrite Nat.sub_diag. simpl. auto.
+    - destruct (Nat.ltb (bs_processed bs) (length (bs_results bs)) && nth i (bs_results bs) false); simpl;
+        (split; [first [apply frame_set_poof | apply frame_refl]|]; repeat split; auto; try lia;
+         exists []; rewrite Nat.sub_diag; simpl; auto).
     - destruct (Nat.ltb (bs_processed bs) (length (bs_results bs)) && nth i (bs_results bs) false) eqn:C.
       2:{ repeat split; auto using frame_refl; try lia. exists []. rewrite Nat.sub_diag. simpl. auto. }
       destruct (nth_error (b_events (bs_batch bs)) i) as [ev|] eqn:En.
